@@ -18,7 +18,8 @@ import ast
 from ..index import AnalysisError
 from .. import astq
 from ._c09_prov import (Prov, Chain, NONE, alts, const, is_const, seq_shape, strip_views, interface_positions,
-                        bind_interface, is_clone_of, none_valued, note_base_attrs, mentions, forwarded, analysed)
+                        bind_interface, is_clone_of, none_valued, note_base_attrs, mentions, forwarded, analysed,
+                        check_first_call_only)
 
 PIPE = "sktime/forecasting/compose/_pipeline.py"
 ENS = "sktime/forecasting/compose/_ensemble.py"
@@ -219,6 +220,7 @@ def check_chain(ctx, res, construct, value, method, want_rev, init_param, loc, f
 def r1_fit(ctx, repo, cls):
     res = analysed(ctx, Prov(repo, no_inline=("_has_tag",)).run_method(cls, "fit"))
     C = "TransformedTargetForecaster.fit"
+    check_first_call_only(ctx, res, "R1", C, loc_of)
     sig = fsig(repo, "fit")
     fits = [e for e in res.calls("fit", kind=("call",)) if e.target.kind == "attr"]
     final = []
@@ -422,6 +424,11 @@ def r1_update(ctx, repo, cls):
                       "update is sent to the constructor's unfitted steps[-1]", loc_of(ef))
             check_chain(ctx, res, C + ":final-forecaster-data", b["y"], "transform", False, "y", loc_of(ef),
                         what="the series handed to the final forecaster's update")
+            ctx.check(res.unconditional(ef), "R1", C + ":final-forecaster:always", "the final forecaster sees every update of the pipeline",
+                      "the final forecaster is updated only on some paths (%s): after the other updates its remembered series and cutoff lag "
+                      "behind the pipeline's, so predict no longer equals the composition of the parts"
+                      % ", ".join("%s is %s" % (res.fmt(c), p) for c, p, _ in res.facts(ef)), loc_of(ef),
+                      witness={"history": "fit(y1); update(y2, update_params=False); predict()"})
     # transformer updates
     tu = [e for e in ups if e not in fin and res.loops_of(e)]
     if not tu:
@@ -530,6 +537,7 @@ def r2_fit(ctx, repo, cls):
     C = cls.name + ".fit"
     fn = repo.lookup_method(cls, "fit")[1]
     loc0 = ctx.loc(cls.module, fn)
+    check_first_call_only(ctx, res, "R2", C, loc_of)
     sig = fsig(repo, "fit")
     mf = member_fit_events(res)
     if not mf and not [e for e in res.calls("fit", kind=("call",)) if e.target.kind == "attr"]:
@@ -745,16 +753,23 @@ def r3(ctx, repo):
         ctx.check(src is not None, "R3", C + ":clone", "the selected component is cloned", "the selected component is used without `clone`", loc)
         elem = comp[1]
         name = ("item", elem, ("const", 0))
-        match, other = [], []
+        match, other, inexact = [], [], []
         for cond, pol, origin in res.facts(s):
             if isinstance(cond, tuple) and cond[0] == "cmp" and {cond[2], cond[3]} == {sel, name} and cond[1] in ("Eq", "NotEq"):
                 match.append((cond[1] == "Eq") == pol)
+            elif isinstance(cond, tuple) and cond[0] == "cmp" and {cond[2], cond[3]} == {sel, name} and cond[1] in ("In", "NotIn"):
+                inexact.append(cond)
             elif isinstance(cond, tuple) and cond[0] == "cmp" and {cond[2], cond[3]} == {sel, NONE} and cond[1] in ("Is", "IsNot"):
                 if (cond[1] == "IsNot") != pol:
                     match.append(False)
                 continue
             else:
                 other.append(cond)
+        if inexact:
+            ctx.violation("R3", C + ":selected-by-name", "the component is chosen by a containment test between `selected_forecaster` and the "
+                          "component name (%s), not by equality: a name that is a substring of (or contains) another selects the wrong / last match"
+                          % res.fmt(inexact[0]), loc, witness={"forecasters": "[('naive', f1), ('naive_drift', f2)], selected_forecaster='naive'"})
+            continue
         stale = [o for o in other if any(isinstance(x, tuple) and x[:1] in (("attr0",), ("attr@",)) and x[1:2] == ("_forecaster",) for x in _subterms(o))]
         if stale:
             ctx.violation("R3", C + ":selected-by-name", "the selection also depends on the previously selected forecaster (%s): once a component "
@@ -852,6 +867,7 @@ def r3(ctx, repo):
     res3 = analysed(ctx, Prov(repo).run_method(cls, "fit"))
     fn3 = repo.lookup_method(cls, "fit")[1]
     C3 = "MultiplexForecaster.fit"
+    check_first_call_only(ctx, res3, "R3", C3, loc_of)
     fits = [e for e in res3.calls("fit", kind=("call",)) if e.target.kind == "attr"]
     sf = res3.calls("_set_forecaster", kind=("inline", "call"))
     if not fits:
@@ -911,6 +927,7 @@ def r4(ctx, repo):
     fn = repo.lookup_method(cls, "fit")[1]
     C = "StackingForecaster.fit"
     loc0 = ctx.loc(cls.module, fn)
+    check_first_call_only(ctx, res, "R4", C, loc_of)
     y = P("y")
     # --- the split
     ctor = [e for e in res.calls(kind=("call",)) if e.target is not None and e.target.kind == "class"
